@@ -869,12 +869,13 @@ func Spice(r *core.Rng, root *TNode, wide, long, share bool) (did string) {
 		n := r.Range(13, 60)
 		if r.Chance(1, 12) && !SpiceNoHuge {
 			n = r.Range(900, 1400) // well beyond any pre-sized or chunked regime
-			switch r.Intn(10) {
-			case 0, 1, 2:
+			// (the larger magnitudes are rarer in proportion, so that the average tree does not grow)
+			switch k := r.Intn(200); {
+			case k < 20:
 				n = r.Range(4090, 4200) // around 2^12
-			case 3:
+			case k == 20:
 				n = r.Range(65530, 65600) // around 2^16
-			case 4:
+			case k < 60:
 				n = r.Range(250, 262) // around 2^8
 			}
 		}
@@ -900,7 +901,7 @@ func Spice(r *core.Rng, root *TNode, wide, long, share bool) (did string) {
 		n := r.Range(40, 200)
 		if r.Chance(1, 8) {
 			n = r.Range(4000, 9000) // several kilobytes
-			if r.Chance(1, 5) {
+			if r.Chance(1, 20) {
 				n = r.Range(65500, 70000) // beyond 2^16 bytes
 			}
 		}
